@@ -280,6 +280,11 @@ func All() []Scenario {
 		mapStream(vals(3), 2, 0, 2, -1, -1, false),
 		mapStream(vals(3), 1, 2, 2, -1, -1, false),
 		mapStream(vals(3), 1, 0, 2, -1, -1, false),
+		// more buffer than workers: the dispatcher holds an item while every worker is busy, then
+		// f fails / the consumer closes
+		mapStream(vals(3), 1, 2, 2, 0, -1, false),
+		mapStream(vals(3), 1, 3, 2, -1, 0, false),
+		mapStream(vals(4), 2, 3, 2, 1, -1, false),
 		mapStream(vals(3), 1, 1, 2, -1, -1, false),
 		mapStream(vals(4), 2, 1, 2, -1, -1, false),
 		mapStream(vals(3), 0, 3, 2, -1, -1, false),
